@@ -37,6 +37,8 @@ class C08(Check):
     pid = "C08"
     title = "SBML export then import reproduces the model, or export fails"
     rules = {
+        "E11": "no formula is dropped silently: every tree handed to setMath comes from a function that raises unless libsbml accepts it (or setMath's return "
+               "code is examined), and every function-table entry yields a node that libsbml accepts with the children the exporter attaches",
         "E10": "ids are injective: an entity id that is created inside nested loops (reaction x stoichiometry entry) depends on the key of every enclosing "
                "loop, directly or through the helper that defines it",
         "E9": "(shared with C17) the re-import side of a round trip: every document gets its own generated module (U1 of C17)",
@@ -56,7 +58,7 @@ class C08(Check):
               "the next component that uses the same function with other arguments",
         "E6": "API existence: every method called on a libsbml object exists on the class its factory returns",
     }
-    floors = {"E10": 1, "E9": 1, "E1": 8, "E2": 3, "E3": 10, "E4": 2, "E5": 20, "E6": 25, "E7": 2, "E8": 1}
+    floors = {"E11": 20, "E10": 1, "E9": 1, "E1": 8, "E2": 3, "E3": 10, "E4": 2, "E5": 20, "E6": 25, "E7": 2, "E8": 1}
     decided = [
         "an expression construct the exporter cannot represent raises instead of producing a different / unreadable formula",
         "coefficient signs survive; ids are produced by one converter; libsbml is called with methods that exist",
@@ -74,6 +76,7 @@ class C08(Check):
         self.e3(mod)
         self.e4(mod)
         self.e10(mod)
+        self.e11(mod)
         self.e5(mod)
         self.e6(mod)
         self.e7(mod)
@@ -295,6 +298,64 @@ class C08(Check):
                         self.holds("E10", MOD, fname, cons, c, f"id depends on every enclosing loop key {keys}")
         self.analysed["ids_defined_in_nested_loops"] = n_sites
 
+    def e11(self, mod) -> None:
+        """libsbml reports a refused formula only through setMath's return code: every formula must be validated before it is set
+        (or the return code checked), and every table entry must produce a node libsbml accepts with the children the exporter gives it."""
+        import libsbml
+
+        validators = set()
+        for fname, f in mod.functions.items():
+            if "." in fname:
+                continue
+            for n in walk_no_nested(f):
+                if isinstance(n, ast.If) and "isWellFormedASTNode()" in norm(n.test) and classify_body(n.body if norm(n.test).startswith("not ") else n.orelse) == "raise":
+                    validators.add(fname)
+        n_set = 0
+        for fname, f in mod.functions.items():
+            if "." in fname:
+                continue
+            sc = Scope(f)
+            ld = single_defs(f, anywhere=True)
+            for c in walk_no_nested(f):
+                if not (isinstance(c, ast.Call) and isinstance(c.func, ast.Attribute) and c.func.attr == "setMath" and c.args):
+                    continue
+                n_set += 1
+                a = expand_locals(c.args[0], ld, depth=3)
+                src = norm(a.func) if isinstance(a, ast.Call) else "?"
+                stmt = sc.stmt_of(c)
+                checked = isinstance(stmt, (ast.Assign, ast.If)) or any(isinstance(p_, ast.Compare) for p_, _f, _c in sc.ancestors(c))
+                cons = f"setMath@{fname}:{norm(c.func.value)[:30]}"
+                if src in validators or checked:
+                    self.holds("E11", MOD, fname, cons, c, f"formula comes from `{src}`, which raises unless libsbml accepts the tree" if src in validators else "setMath's return code is examined")
+                else:
+                    self.violated("E11", MOD, fname, cons, c, f"`{norm(c)[:70]}`: neither is the tree validated (isWellFormedASTNode) nor is setMath's return code examined - libsbml drops a refused formula silently",
+                                  witness="a rate law libsbml cannot represent as built (log10 with one child) is written as an empty <kineticLaw/>; the file cannot be read back")
+        self.analysed["setMath_calls"] = n_set
+        # table entries produce acceptable nodes with the number of children the exporter attaches
+        kc = mod.func("_convert_known_call")
+        extra: dict[str, int] = {}
+        for n in walk_no_nested(kc):
+            if isinstance(n, ast.If) and isinstance(n.test, ast.Compare) and norm(n.test.left) == "typ" and isinstance(n.test.ops[0], ast.Eq):
+                extra[norm(n.test.comparators[0]).replace("libsbml.", "")] = sum(1 for x in ast.walk(n) if isinstance(x, ast.Call) and norm(x.func).endswith(".addChild"))
+        for table, arity in (("UNARY", 1), ("BINARY", 2), ("NARY", 2)):
+            t = mod.const(table)
+            for k, v in zip(t.keys, t.values):
+                typ = norm(v).replace("libsbml.", "")
+                if not hasattr(libsbml, typ):
+                    self.violated("E11", MOD, table, f"{table}[{k.value!r}] node", k, f"libsbml has no node type {typ}")
+                    continue
+                node = libsbml.ASTNode(getattr(libsbml, typ))
+                for i in range(arity + extra.get(typ, 0)):
+                    ch = libsbml.ASTNode(libsbml.AST_NAME)
+                    ch.setName(f"a{i}")
+                    node.addChild(ch)
+                cons = f"{table}[{k.value!r}] node"
+                if node.isWellFormedASTNode():
+                    self.holds("E11", MOD, table, cons, k, f"{typ} with {arity + extra.get(typ, 0)} children is accepted by libsbml")
+                else:
+                    self.violated("E11", MOD, table, cons, k, f"{typ} with {arity + extra.get(typ, 0)} child(ren) is not well-formed for libsbml: setMath refuses the formula",
+                                  witness=f"a rate law calling {k.value} is exported without its formula")
+
     def e4(self, mod) -> None:
         """Coefficient export, from the path summaries of one stoichiometry entry (match or isinstance dispatch alike)."""
         fn = mod.func("_create_sbml_reactions")
@@ -463,9 +524,11 @@ class C08(Check):
 
     def must_fire(self):
         return [
+            Variant("log10-without-base", MOD, "_convert_known_call", "        if typ == libsbml.AST_FUNCTION_LOG:\n            base = libsbml.ASTNode(libsbml.AST_INTEGER)\n            base.setValue(10)\n            sbml_node.addChild(base)\n", "", expect="E11|", quick=True),
+            Variant("formula-not-validated", MOD, "_sbmlify_fn", "    if not node.isWellFormedASTNode():\n        msg = f'Function {fn.__name__} cannot be represented in SBML'\n        raise NotImplementedError(msg)\n", "", expect="E11|", quick=True),
             Variant("reintroduce-shared-coefficient-rule-id", MOD, "_create_sbml_reactions", "reference = f'{name}_{compound_id}ref'", "reference = f'{compound_id}ref'", expect="E10|", quick=True),
-            Variant("memoised-parse", MOD, "", "def _sbmlify_fn(fn: Callable, user_args: list[str]) -> libsbml.ASTNode:\n    return _tree_to_sbml(get_fn_ast(fn), args=user_args)",
-                    "from functools import cache\n\n@cache\ndef _parse_fn(fn: Callable) -> ast.FunctionDef:\n    tree = get_fn_ast(fn)\n    return tree\n\ndef _sbmlify_fn(fn: Callable, user_args: list[str]) -> libsbml.ASTNode:\n    return _tree_to_sbml(_parse_fn(fn), args=user_args)",
+            Variant("memoised-parse", MOD, "", "def _sbmlify_fn(fn: Callable, user_args: list[str]) -> libsbml.ASTNode:\n    node = _tree_to_sbml(get_fn_ast(fn), args=user_args)",
+                    "from functools import cache\n\n@cache\ndef _parse_fn(fn: Callable) -> ast.FunctionDef:\n    tree = get_fn_ast(fn)\n    return tree\n\ndef _sbmlify_fn(fn: Callable, user_args: list[str]) -> libsbml.ASTNode:\n    node = _tree_to_sbml(_parse_fn(fn), args=user_args)",
                     expect="E7|", quick=True),
             Variant("piecewise-condition-first", MOD, "_convert_ifexp", "    sbml_node.addChild(true)\n    sbml_node.addChild(condition)", "    sbml_node.addChild(condition)\n    sbml_node.addChild(true)", expect="E8|", quick=True),
             Variant("first-link-only", MOD, "_convert_compare",
